@@ -21,25 +21,27 @@ import (
 )
 
 type line struct {
-	Start  string            `json:"start"`
-	ID     string            `json:"id"`
-	Run    int               `json:"run"`
-	Stage  string            `json:"stage"`
-	Err    string            `json:"err"`
-	Panic  string            `json:"panic"`
-	Digest string            `json:"digest"`
-	Files  map[string]string `json:"files"`
-	Order  string            `json:"order"`
-	Procs  int               `json:"gomaxprocs"`
+	Start   string            `json:"start"`
+	ID      string            `json:"id"`
+	Run     int               `json:"run"`
+	Stage   string            `json:"stage"`
+	Err     string            `json:"err"`
+	Panic   string            `json:"panic"`
+	PanicAt string            `json:"panic_at"`
+	Digest  string            `json:"digest"`
+	Files   map[string]string `json:"files"`
+	Order   string            `json:"order"`
+	Procs   int               `json:"gomaxprocs"`
 }
 
 type job struct {
-	Items   []genlab.Item `json:"items"`
-	Runs    int           `json:"runs"`
-	Delays  bool          `json:"delays"`
-	Seed    int64         `json:"seed"`
-	Out     string        `json:"out"`
-	Workdir string        `json:"workdir"`
+	Items        []genlab.Item `json:"items"`
+	Runs         int           `json:"runs"`
+	Delays       bool          `json:"delays"`
+	Seed         int64         `json:"seed"`
+	Out          string        `json:"out"`
+	Workdir      string        `json:"workdir"`
+	ItemTimeoutS int           `json:"item_timeout_s,omitempty"`
 }
 
 var quickCorpus = []string{
@@ -152,6 +154,14 @@ func Main(args []string) int {
 	// crafted and PRNG-generated documents aimed at order-sensitive constructs
 	items = append(items, gendocs.Crafted()...)
 	items = append(items, gendocs.SchemaDocs(r.Seed, r.N(4, 40), 12)...)
+	// configurations that must not leave anything behind in the process: default features with a disable list
+	// naming default features (the next default generation of the same document sits somewhere later in the list)
+	for k, dis := range [][]string{{"paths/client"}, {"paths/server", "ogen/otel"}, {"webhooks/client", "webhooks/server", "ogen/unimplemented"}} {
+		it := genlab.CorpusItem(filepath.Join(td, []string{"positive/sample.json", "positive/webhooks.json", "examples/petstore-expanded.yml"}[k]))
+		it.Disable = dis
+		it.ID += "#disable=" + strings.Join(dis, "+")
+		items = append(items, it)
+	}
 	s2 := genlab.CorpusItem(filepath.Join(td, "positive/sample.json"))
 	s2.DefaultFeat = false
 	s2.Features = []string{"paths/client"}
@@ -196,12 +206,13 @@ func Main(args []string) int {
 			j := prng.Intn(k + 1)
 			order[k], order[j] = order[j], order[k]
 		}
-		jb, _ := json.Marshal(job{Items: order, Runs: p.c.runs, Delays: p.c.delays, Seed: r.Seed + int64(i), Out: p.out, Workdir: mod.Dir})
+		jb, _ := json.Marshal(job{Items: order, Runs: p.c.runs, Delays: p.c.delays, Seed: r.Seed + int64(i), Out: p.out, Workdir: mod.Dir, ItemTimeoutS: 300})
 		jf := filepath.Join(scratch, fmt.Sprintf("job%d.json", i))
 		os.WriteFile(jf, jb, 0o644)
 		env := genlab.GoEnv(fmt.Sprintf("GOMAXPROCS=%d", p.c.procs), "GORACE=halt_on_error=0 log_path="+p.log)
 		out, err := genlab.RunIn(mod.Dir, 60*time.Minute, env, bin, jf)
-		if err != nil && !strings.Contains(err.Error(), "exit status 66") {
+		if err != nil && !strings.Contains(err.Error(), "exit status 66") && !strings.Contains(err.Error(), "exit status 4") {
+			// exit status 4 = the worker's own watchdog gave up on an item (logged with stage "hang", decided below)
 			// exit status 66 = race detector found something (reported below from the log)
 			if strings.Contains(err.Error(), "watchdog") {
 				r.Inconclusive("worker-watchdog", fmt.Sprintf("GOMAXPROCS=%d", p.c.procs))
@@ -224,6 +235,7 @@ func Main(args []string) int {
 	}
 	byID := map[string][]obs{}
 	started := map[string]string{}
+	var hung [][3]string
 	for i, p := range procs {
 		f, err := os.Open(p.out)
 		if err != nil {
@@ -249,6 +261,10 @@ func Main(args []string) int {
 				o.stage = "panic"
 				o.err = l.Panic
 			}
+			if l.Stage == "hang" {
+				hung = append(hung, [3]string{l.ID, where, l.Err + " ; goroutines in ogen code: " + l.PanicAt})
+				continue
+			}
 			byID[l.ID] = append(byID[l.ID], o)
 		}
 		f.Close()
@@ -259,6 +275,9 @@ func Main(args []string) int {
 	if failed && len(started) == 0 {
 		fmt.Println("ERROR a worker failed without identifying an input")
 		return 2
+	}
+	for _, h := range hung {
+		r.Violate("generation-did-not-finish:"+h[0], fmt.Sprintf("%s: %s: %s", h[0], h[1], h[2]), map[string]any{"item": h[0], "where": h[1], "detail": h[2]})
 	}
 	for pr, id := range started {
 		r.Violate("worker-died:"+id, fmt.Sprintf("worker %s died while generating %s (fatal error in the generator)", pr, id), map[string]any{"item": id})
